@@ -474,6 +474,139 @@ fn script(sys: &mut dyn Sys, which: usize) -> Vec<String> {
 
 pub const NSCRIPTS: usize = 8;
 
+/// child mode: a second thread sleeps forever, the initial thread exits (becomes a zombie leader)
+pub fn child_zombie_leader() -> ! {
+    std::thread::spawn(|| loop {
+        std::thread::sleep(std::time::Duration::from_millis(5));
+    });
+    std::thread::sleep(std::time::Duration::from_millis(50));
+    // exit only this thread (raw exit, not exit_group): the process lives on with a zombie leader
+    unsafe {
+        libc::syscall(libc::SYS_exit, 0);
+    }
+    unreachable!()
+}
+
+fn errno_of_open(path: &str) -> String {
+    match std::fs::File::open(path) {
+        Ok(mut f) => {
+            use std::io::Read;
+            let mut v = Vec::new();
+            match f.read_to_end(&mut v) {
+                Ok(n) => format!("open ok, {} bytes", if n == 0 { "0".to_string() } else { ">0".to_string() }),
+                Err(e) => format!("open ok, read errno {}", e.raw_os_error().unwrap_or(-1)),
+            }
+        }
+        Err(e) => format!("open errno {}", e.raw_os_error().unwrap_or(-1)),
+    }
+}
+
+/// facts about a process whose initial thread has exited, real kernel vs model
+fn zombie_leader_lane() -> Result<(usize, usize), String> {
+    let exe = std::env::current_exe().map_err(|e| e.to_string())?;
+    let mut child = std::process::Command::new(exe).arg("conformance-child").spawn().map_err(|e| e.to_string())?;
+    let pid = child.id() as i32;
+    // wait until the leader is a zombie and a second task exists
+    let t0 = std::time::Instant::now();
+    let mut other = 0;
+    loop {
+        let st = std::fs::read_to_string(format!("/proc/{}/stat", pid)).unwrap_or_default();
+        let z = st.rsplit(')').next().map(|r| r.trim_start().starts_with('Z')).unwrap_or(false);
+        if let Ok(rd) = std::fs::read_dir(format!("/proc/{}/task", pid)) {
+            for e in rd.flatten() {
+                if let Ok(t) = e.file_name().to_string_lossy().parse::<i32>() {
+                    if t != pid {
+                        other = t;
+                    }
+                }
+            }
+        }
+        if z && other != 0 {
+            break;
+        }
+        if t0.elapsed().as_secs() > 5 {
+            let _ = child.kill();
+            let _ = child.wait();
+            return Err("child did not reach the zombie-leader state".into());
+        }
+        std::thread::sleep(std::time::Duration::from_millis(5));
+    }
+    let mut real: Vec<String> = Vec::new();
+    for f in ["auxv", "maps", "cmdline", "environ", "comm", "status", "limits"] {
+        real.push(format!("leader {} -> {}", f, errno_of_open(&format!("/proc/{}/{}", pid, f))));
+    }
+    real.push(format!("other maps -> {}", errno_of_open(&format!("/proc/{}/maps", other))));
+    real.push(format!("other auxv -> {}", errno_of_open(&format!("/proc/{}/auxv", other))));
+    let attach = |t: i32| -> String {
+        let r = unsafe { libc::syscall(libc::SYS_ptrace, 16 as c_long, t, 0usize, 0usize) };
+        if r < 0 {
+            format!("errno {}", errno())
+        } else {
+            let mut st: c_int = 0;
+            unsafe {
+                libc::syscall(libc::SYS_wait4, t, &mut st as *mut c_int, libc::__WALL, 0usize);
+                libc::syscall(libc::SYS_ptrace, 17 as c_long, t, 0usize, 0usize);
+            }
+            "ok".to_string()
+        }
+    };
+    real.push(format!("attach leader -> {}", attach(pid)));
+    real.push(format!("attach other -> {}", attach(other)));
+    let mut buf = [0u8; 8];
+    let l = libc::iovec { iov_base: buf.as_mut_ptr() as *mut c_void, iov_len: 8 };
+    let rv = libc::iovec { iov_base: (&buf as *const u8) as *mut c_void, iov_len: 8 };
+    let n = unsafe { libc::syscall(libc::SYS_process_vm_readv, pid, &l as *const libc::iovec, 1usize, &rv as *const libc::iovec, 1usize, 0usize) };
+    real.push(format!("vm_readv via leader -> {}", if n < 0 { format!("errno {}", errno()) } else { "ok".into() }));
+    let _ = child.kill();
+    let _ = child.wait();
+
+    // the model
+    let mut sim = Sim::new();
+    let spid = sim.pid;
+    let mut second = sim.k.threads[0].clone();
+    second.tid = spid + 1;
+    sim.k.threads.push(second);
+    sim.k.threads[0].life = Life::Zombie;
+    sim.k.world.auxv = vec![(3, 0x1000)];
+    sim.k.world.auxv_terminated = true;
+    sim.k.world.cmdline = B(b"x\0".to_vec());
+    sim.k.world.environ = B(b"A=B\0".to_vec());
+    sim.k.world.limits = B(b"Limit\n".to_vec());
+    let mut model: Vec<String> = Vec::new();
+    let mut probe = |k: &mut Kernel, path: String| -> String {
+        match k.vfs_lookup(path.as_bytes()) {
+            Ok((c, _, _, _)) => format!("open ok, {} bytes", if c.is_empty() { "0" } else { ">0" }),
+            Err(e) => format!("open errno {}", e),
+        }
+    };
+    for f in ["auxv", "maps", "cmdline", "environ", "comm", "status", "limits"] {
+        let r = probe(&mut sim.k, format!("/proc/{}/{}", spid, f));
+        model.push(format!("leader {} -> {}", f, r));
+    }
+    let r = probe(&mut sim.k, format!("/proc/{}/maps", spid + 1));
+    model.push(format!("other maps -> {}", r));
+    let r = probe(&mut sim.k, format!("/proc/{}/auxv", spid + 1));
+    model.push(format!("other auxv -> {}", r));
+    model.push(format!("attach leader -> {}", r2s(sim.k.sys_ptrace_attach(spid))));
+    let a = sim.k.sys_ptrace_attach(spid + 1);
+    if a.is_ok() {
+        let _ = sim.k.sys_waitpid(spid + 1);
+        let _ = sim.k.sys_ptrace_detach(spid + 1, 0);
+    }
+    model.push(format!("attach other -> {}", r2s(a)));
+    model.push(format!("vm_readv via leader -> {}", match sim.k.sys_vmreadv(spid, BASE, 8) { Ok(_) => "ok".to_string(), Err(e) => format!("errno {}", e) }));
+    let mut bad = 0;
+    for i in 0..real.len().max(model.len()) {
+        let a = model.get(i).cloned().unwrap_or_default();
+        let b = real.get(i).cloned().unwrap_or_default();
+        if a != b {
+            bad += 1;
+            eprintln!("conformance divergence (zombie leader) step {}:\n   simulated: {}\n   real     : {}", i, a, b);
+        }
+    }
+    Ok((real.len(), bad))
+}
+
 pub fn run() -> i32 {
     let mut total = 0;
     let mut bad = 0;
@@ -499,6 +632,13 @@ pub fn run() -> i32 {
                 eprintln!("conformance divergence in script {} step {}:\n   simulated: {}\n   real     : {}", which, i, a, b);
             }
         }
+    }
+    match zombie_leader_lane() {
+        Ok((n, b)) => {
+            total += n;
+            bad += b;
+        }
+        Err(e) => eprintln!("conformance: zombie-leader lane skipped: {}", e),
     }
     println!("conformance: {} observations compared against the real kernel, {} divergent", total, bad);
     let path = format!("{}/sim/conformance_result.json", crate::driver::verif_dir());
